@@ -3,18 +3,21 @@
 (* calling send_*(), close() and the loop's own pong / auto-ping / close-echo.  Shared state: the        *)
 (* session's write lock, the compress lock, the closing flag, the deflate context (as the order in which *)
 (* messages were compressed) and the wire (every sendall is two steps, so a torn write is observable).   *)
-(* Variant = "repaired" is the code after the fix commits; "as_found" is the pinned snapshot, kept so     *)
-(* that TLC exhibits the schedules that break C11/C12 there.                                             *)
+(* Variant = "repaired" is the code after the fix commits; "as_found" is the pinned snapshot and          *)
+(* "pre_f8" the tree before the last of them (closing -> closed transition), kept so that TLC exhibits   *)
+(* the schedules that break C11/C12 there.                                                               *)
 EXTENDS Naturals, Sequences, FiniteSets, TLC
 
-CONSTANTS Programs,   \* a sequence (one entry per thread) of sequences of operations: "send", "zsend", "ctl", "close"
-          Variant     \* "repaired" or "as_found"
+CONSTANTS Programs,   \* a sequence (one entry per thread) of sequences of operations: "send", "zsend", "ctl", "close", "srvclose"
+          Variant     \* "repaired", "pre_f8" or "as_found"
+F45 == Variant # "as_found"          \* closing set under the write lock; compress + write serialised
+F8  == Variant = "repaired"          \* closed set before closing is cleared; write() reads closing before closed
 Threads == 1..Len(Programs)
-VARIABLES pc, ip, lock, zlock, closing, wire, zorder, results
-vars == <<pc, ip, lock, zlock, closing, wire, zorder, results>>
+VARIABLES pc, ip, lock, zlock, closing, closed, wire, zorder, results
+vars == <<pc, ip, lock, zlock, closing, closed, wire, zorder, results>>
 
 Init == /\ pc = [t \in Threads |-> "next"] /\ ip = [t \in Threads |-> 1]
-        /\ lock = 0 /\ zlock = 0 /\ closing = FALSE /\ wire = <<>> /\ zorder = <<>> /\ results = <<>>
+        /\ lock = 0 /\ zlock = 0 /\ closing = FALSE /\ closed = FALSE /\ wire = <<>> /\ zorder = <<>> /\ results = <<>>
 Op(t) == Programs[t][ip[t]]
 Msg(t) == <<t, ip[t]>>
 Finish(t, res) == /\ results' = Append(results, [th |-> t, i |-> ip[t], op |-> Op(t), res |-> res])
@@ -22,44 +25,62 @@ Finish(t, res) == /\ results' = Append(results, [th |-> t, i |-> ip[t], op |-> O
 
 Begin(t) ==
   /\ pc[t] = "next" /\ ip[t] <= Len(Programs[t])
-  /\ pc' = [pc EXCEPT ![t] = CASE Op(t) = "zsend" -> (IF Variant = "repaired" THEN "zacq" ELSE "compress")
+  /\ pc' = [pc EXCEPT ![t] = CASE Op(t) = "zsend" -> (IF F45 THEN "zacq" ELSE "compress")
                                 [] Op(t) = "close" -> "closetest"
+                                [] Op(t) = "srvclose" -> "srvtest"
                                 [] OTHER -> "acq"]
-  /\ UNCHANGED <<ip, lock, zlock, closing, wire, zorder, results>>
+  /\ UNCHANGED <<ip, lock, zlock, closing, closed, wire, zorder, results>>
 \* compressed send: (repaired) take the compress lock over compress + write
 ZAcq(t) == /\ pc[t] = "zacq" /\ zlock = 0 /\ zlock' = t /\ pc' = [pc EXCEPT ![t] = "compress"]
-           /\ UNCHANGED <<ip, lock, closing, wire, zorder, results>>
+           /\ UNCHANGED <<ip, lock, closing, closed, wire, zorder, results>>
 Compress(t) == /\ pc[t] = "compress" /\ zorder' = Append(zorder, Msg(t)) /\ pc' = [pc EXCEPT ![t] = "acq"]
-               /\ UNCHANGED <<ip, lock, zlock, closing, wire, results>>
+               /\ UNCHANGED <<ip, lock, zlock, closing, closed, wire, results>>
 \* close(): the is_closing test happens before the write lock is taken
 CloseTest(t) == /\ pc[t] = "closetest"
-                /\ IF closing THEN Finish(t, "noop") /\ UNCHANGED <<lock, zlock, closing, wire, zorder>>
-                   ELSE pc' = [pc EXCEPT ![t] = "acq"] /\ UNCHANGED <<ip, lock, zlock, closing, wire, zorder, results>>
-\* session.write(): lock, refuse when closing, sendall in two steps, (repaired: a Close frame sets closing under the lock)
+                /\ IF closing \/ closed THEN Finish(t, "noop") /\ UNCHANGED <<lock, zlock, closing, closed, wire, zorder>>
+                   ELSE pc' = [pc EXCEPT ![t] = "acq"] /\ UNCHANGED <<ip, lock, zlock, closing, closed, wire, zorder, results>>
+\* the loop thread processes a Close frame of the server (_on_close): nothing when closed; the reply to our own Close moves
+\* closing -> closed in two assignments WITHOUT the write lock; otherwise it echoes the Close like close() does
+SrvTest(t) == /\ pc[t] = "srvtest"
+              /\ IF closed THEN Finish(t, "noop") /\ UNCHANGED <<lock, zlock, closing, closed, wire, zorder>>
+                 ELSE /\ pc' = [pc EXCEPT ![t] = IF closing THEN "tr1" ELSE "acq"]
+                      /\ UNCHANGED <<ip, lock, zlock, closing, closed, wire, zorder, results>>
+Tr1(t) == /\ pc[t] = "tr1" /\ pc' = [pc EXCEPT ![t] = "tr2"]
+          /\ IF F8 THEN closed' = TRUE /\ UNCHANGED closing ELSE closing' = FALSE /\ UNCHANGED closed
+          /\ UNCHANGED <<ip, lock, zlock, wire, zorder, results>>
+Tr2(t) == /\ pc[t] = "tr2"
+          /\ IF F8 THEN closing' = FALSE /\ UNCHANGED closed ELSE closed' = TRUE /\ UNCHANGED closing
+          /\ Finish(t, "ok") /\ UNCHANGED <<lock, zlock, wire, zorder>>
+\* session.write(): lock, refuse when closed / closing (two separate reads of the two flags), sendall in two steps,
+\* (repaired: a Close frame sets closing under the lock)
 Acq(t) == /\ pc[t] = "acq" /\ lock = 0 /\ lock' = t /\ pc' = [pc EXCEPT ![t] = "check"]
-          /\ UNCHANGED <<ip, zlock, closing, wire, zorder, results>>
+          /\ UNCHANGED <<ip, zlock, closing, closed, wire, zorder, results>>
 Check(t) == /\ pc[t] = "check"
-            /\ IF closing THEN pc' = [pc EXCEPT ![t] = "refused"] ELSE pc' = [pc EXCEPT ![t] = "w1"]
-            /\ UNCHANGED <<ip, lock, zlock, closing, wire, zorder, results>>
+            /\ IF (IF F8 THEN closing ELSE closed) THEN pc' = [pc EXCEPT ![t] = "refused"] ELSE pc' = [pc EXCEPT ![t] = "check2"]
+            /\ UNCHANGED <<ip, lock, zlock, closing, closed, wire, zorder, results>>
+Check2(t) == /\ pc[t] = "check2"
+             /\ IF (IF F8 THEN closed ELSE closing) THEN pc' = [pc EXCEPT ![t] = "refused"] ELSE pc' = [pc EXCEPT ![t] = "w1"]
+             /\ UNCHANGED <<ip, lock, zlock, closing, closed, wire, zorder, results>>
 W1(t) == /\ pc[t] = "w1" /\ wire' = Append(wire, <<t, ip[t], 1>>) /\ pc' = [pc EXCEPT ![t] = "w2"]
-         /\ UNCHANGED <<ip, lock, zlock, closing, zorder, results>>
+         /\ UNCHANGED <<ip, lock, zlock, closing, closed, zorder, results>>
 W2(t) == /\ pc[t] = "w2" /\ wire' = Append(wire, <<t, ip[t], 2>>)
-         /\ closing' = (closing \/ (Variant = "repaired" /\ Op(t) = "close"))
+         /\ closing' = (closing \/ (F45 /\ Op(t) \in {"close", "srvclose"}))
          /\ pc' = [pc EXCEPT ![t] = "rel"]
-         /\ UNCHANGED <<ip, lock, zlock, zorder, results>>
+         /\ UNCHANGED <<ip, lock, zlock, closed, zorder, results>>
 Rel(t) == /\ pc[t] \in {"rel", "refused"} /\ lock' = 0
           /\ zlock' = IF zlock = t THEN 0 ELSE zlock
-          /\ IF Op(t) = "close" THEN pc' = [pc EXCEPT ![t] = "setclosing"] /\ UNCHANGED <<ip, results>>
+          /\ IF Op(t) \in {"close", "srvclose"} THEN pc' = [pc EXCEPT ![t] = "setclosing"] /\ UNCHANGED <<ip, results>>
              ELSE Finish(t, IF pc[t] = "refused" THEN "WebSocketClosing" ELSE "ok")
-          /\ UNCHANGED <<closing, wire, zorder>>
+          /\ UNCHANGED <<closing, closed, wire, zorder>>
 SetClosing(t) == /\ pc[t] = "setclosing" /\ closing' = TRUE /\ Finish(t, "ok")
-                 /\ UNCHANGED <<lock, zlock, wire, zorder>>
-Step(t) == Begin(t) \/ ZAcq(t) \/ Compress(t) \/ CloseTest(t) \/ Acq(t) \/ Check(t) \/ W1(t) \/ W2(t) \/ Rel(t) \/ SetClosing(t)
+                 /\ UNCHANGED <<lock, zlock, closed, wire, zorder>>
+Step(t) == Begin(t) \/ ZAcq(t) \/ Compress(t) \/ CloseTest(t) \/ SrvTest(t) \/ Tr1(t) \/ Tr2(t) \/ Acq(t) \/ Check(t) \/ Check2(t)
+           \/ W1(t) \/ W2(t) \/ Rel(t) \/ SetClosing(t)
 Next == \E t \in Threads : Step(t)
 Spec == Init /\ [][Next]_vars
 
 \* ---- C11 / C12 on the model ---------------------------------------------------------------------------
-IsClose(w) == Programs[w[1]][w[2]] = "close"
+IsClose(w) == Programs[w[1]][w[2]] \in {"close", "srvclose"}
 IsZ(w) == Programs[w[1]][w[2]] = "zsend"
 NoTornWrite == \A i \in 1..Len(wire) : wire[i][3] = 2 => (i > 1 /\ wire[i - 1] = <<wire[i][1], wire[i][2], 1>>)
 FirstHalves == SelectSeq(wire, LAMBDA w : w[3] = 1)
@@ -69,6 +90,6 @@ NothingAfterClose == \A i \in 1..Len(FirstHalves) : IsClose(FirstHalves[i]) => i
 WireZ == SelectSeq(FirstHalves, LAMBDA w : IsZ(w))
 CompressOrderIsWireOrder == \A i \in 1..Len(WireZ) : i <= Len(zorder) /\ <<WireZ[i][1], WireZ[i][2]>> = zorder[i]
 PerThreadOrder == \A i, j \in 1..Len(FirstHalves) : (i < j /\ FirstHalves[i][1] = FirstHalves[j][1]) => FirstHalves[i][2] < FirstHalves[j][2]
-LoserGetsError == \A i \in 1..Len(results) : results[i].res = "ok" \/ results[i].op = "close"
+LoserGetsError == \A i \in 1..Len(results) : results[i].res = "ok" \/ results[i].op \in {"close", "srvclose"}
                       \/ ~\E k \in 1..Len(wire) : wire[k][1] = results[i].th /\ wire[k][2] = results[i].i
 =============================================================================
